@@ -271,6 +271,15 @@ impl Encode for &[u8] {
     }
 }
 
+/// Shortens the buffer to `len` bytes, removes everything written after that
+pub(crate) fn truncate_pages(dst: &mut BytePages, len: usize) {
+    if dst.len() > len {
+        let mut head = dst.split_to(len);
+        dst.clear();
+        head.move_to(dst);
+    }
+}
+
 pub(crate) fn write_variable_length(len: u32, dst: &mut BytePages) {
     match len {
         0..=127 => dst.put_u8(len as u8),
